@@ -319,6 +319,12 @@ class ExprTrOpt(ExprTr):
                 t = self.tr(n.args[0])
                 if t[1] in ('Z', 'bool', 'optZ'):
                     return ('false', 'bool')
+            # isinstance(<int>, numbers.Integral) is true (bool is Integral as well)
+            if isinstance(cls, ast.Attribute) and isinstance(cls.value, ast.Name) \
+                    and cls.value.id == 'numbers' and cls.attr == 'Integral':
+                t = self.tr(n.args[0])
+                if t[1] in ('Z', 'bool'):
+                    return ('true', 'bool')
         if isinstance(f, ast.Name) and f.id in self.calls and not n.keywords:
             cname, argtys, rty = self.calls[f.id]
             if len(argtys) != len(n.args):
